@@ -114,6 +114,28 @@ def mk_raw(alg, keys, values):
     return MultiVector.fromkeysvalues(alg, tuple(keys), values if isinstance(values, np.ndarray) else list(values))
 
 
+def sym_call(alg, fn, operands, how="keyword"):
+    """Evaluate fn on SYMBOLIC operands and then call the symbolic result with numbers.  operands: [(name, keys, values)];
+    each becomes alg.multivector(name=name, keys=keys) (symbols name+blade suffix: a1, a2, a12 ...).  The result is called
+    with keyword arguments {symbol name: value} (how="keyword") or positionally in name order; returns what the call returns
+    (the symbolic result itself if it has no free symbols)."""
+    mvs, binding = [], {}
+    for name, keys, values in operands:
+        m = alg.multivector(name=name, keys=tuple(keys)) if keys else alg.multivector(keys=(), values=[])
+        for sym, val in zip(m.values(), values):
+            binding[str(sym)] = val
+        mvs.append(m)
+    r = fn(*mvs)
+    if not isinstance(r, MultiVector):
+        return r
+    free = sorted(str(s_) for s_ in r.free_symbols)
+    if not free:
+        return r
+    if how == "keyword":
+        return r(**{n: binding[n] for n in free})
+    return r(*[binding[n] for n in free])
+
+
 def to_dict(x, alg=None, what="result", op="?"):
     """Observe a kingdon result as dict{bitmask: coefficient}.  Duplicate keys / length mismatch are violations of
     every property (the element would be ambiguous).  A bare number is the scalar element."""
@@ -166,6 +188,16 @@ def elem_equal(got: dict, exp: dict, tol=None):
         if not (diff <= tol * scale):
             return False, f"blade {k}: got {got.get(k, 0)!r}, expected {exp.get(k, 0)!r} (|diff|={diff:.3g}, tol={tol * scale:.3g})"
     return True, ""
+
+
+def plain(v):
+    """sympy numbers -> Fraction / float / complex (other values unchanged)."""
+    if hasattr(v, "is_Rational") and hasattr(v, "free_symbols"):
+        if v.is_Rational:
+            return Fraction(int(v.p), int(v.q))
+        if not v.free_symbols:
+            return complex(v) if v.is_real is False else float(v)
+    return v
 
 
 def _num(v):
